@@ -110,14 +110,17 @@ pub struct EwEnv {
     /// scripted losses (not choices): the first k SYN / SYN-ACK datagrams are dropped
     pub lose_syn: usize,
     pub lose_synack: usize,
+    /// the applications read the events of a step() only after their next call of step() (the iterator is kept across the call, which its
+    /// signature and documentation allow); events are then recorded one round late
+    pub late_events: bool,
 }
 
 impl EwEnv {
     pub fn name(&self) -> String {
-        format!("f{}{}t{:?}d{:?}fd{}ls{}.{}dev{}+{}max{}app{}{}bl{}", self.fates.len(), if self.fates_free { "free" } else { "" }, self.fate_types, self.deltas, self.fair_delta, self.lose_syn, self.lose_synack, self.dev_start, self.dev_rounds, self.max_rounds, self.app_menu.len(), if self.skip_choice { "S" } else { "" }, self.blackouts.len()) + &(if self.blackout_lens.is_empty() { String::new() } else { format!("x{:?}", self.blackout_lens) })
+        format!("f{}{}t{:?}d{:?}fd{}ls{}.{}dev{}+{}max{}app{}{}bl{}", self.fates.len(), if self.fates_free { "free" } else { "" }, self.fate_types, self.deltas, self.fair_delta, self.lose_syn, self.lose_synack, self.dev_start, self.dev_rounds, self.max_rounds, self.app_menu.len(), if self.skip_choice { "S" } else { "" }, self.blackouts.len()) + &(if self.blackout_lens.is_empty() { String::new() } else { format!("x{:?}", self.blackout_lens) }) + if self.late_events { "late" } else { "" }
     }
     pub fn basic(dev_rounds: usize, max_rounds: usize) -> Self {
-        Self { fates: DF_BASIC, fate_types: &[], fates_free: false, deltas: &[100, 0, 1000, 2000], dev_start: 0, dev_rounds, max_rounds, app_menu: vec![], skip_choice: false, fair_delta: 100, blackouts: &[], blackout_lens: &[], stop_when_done: true, fuel: 2_000_000, long_hold: 12, lose_syn: 0, lose_synack: 0 }
+        Self { fates: DF_BASIC, fate_types: &[], fates_free: false, deltas: &[100, 0, 1000, 2000], dev_start: 0, dev_rounds, max_rounds, app_menu: vec![], skip_choice: false, fair_delta: 100, blackouts: &[], blackout_lens: &[], stop_when_done: true, fuel: 2_000_000, long_hold: 12, lose_syn: 0, lose_synack: 0, late_events: false }
     }
 }
 
@@ -185,6 +188,8 @@ pub fn run_ew(cfg: &EwCfg, script: &[EwOp], env: &EwEnv, ch: &mut Chooser) -> Ew
     let scfg = server::Config { max_total_connections: cfg.max_total, max_active_connections: cfg.max_active, enable_handshake_errors: cfg.handshake_errors, endpoint_config: cfg.server.clone() };
     let mut srv = server::Server::bind(SERVER_ADDR, scfg).expect("bind");
     let mut clients: Vec<Option<client::Client>> = (0..n).map(|_| None).collect();
+    let mut held_s: Option<Box<dyn Iterator<Item = server::Event>>> = None;
+    let mut held_c: Vec<Option<Box<dyn Iterator<Item = client::Event>>>> = (0..n).map(|_| None).collect();
     let mut held: Vec<Held> = Vec::new();
     let mut now = 0u64; let mut seq = 0usize;
     let mut counters: std::collections::HashMap<(usize, usize, u8), u32> = Default::default();
@@ -237,7 +242,7 @@ pub fn run_ew(cfg: &EwCfg, script: &[EwOp], env: &EwEnv, ch: &mut Chooser) -> Ew
                     tr.c_connect_round[*i] = None;
                     for k in counters.keys().cloned().collect::<Vec<_>>() { if k.1 == *i { counters.remove(&k); } }
                 }
-                Act::Forget(i) => { clients[*i] = None; }
+                Act::Forget(i) => { clients[*i] = None; held_c[*i] = None; }
                 Act::CSend(i, chn, mode, size) => {
                     // the per-channel index counts every call, whether or not an object exists to take the packet
                     let idx = { let e = counters.entry((0, *i, *chn)).or_insert(0); let v = *e; *e += 1; v };
@@ -318,7 +323,7 @@ pub fn run_ew(cfg: &EwCfg, script: &[EwOp], env: &EwEnv, ch: &mut Chooser) -> Ew
         ob.s_stepped = skip != 1;
         if skip != 1 {
             set_fuel(env.fuel);
-            let evs: Vec<server::Event> = srv.step().collect();
+            let evs: Vec<server::Event> = if env.late_events { let it: Box<dyn Iterator<Item = server::Event>> = Box::new(srv.step()); match held_s.replace(it) { Some(old) => old.collect(), None => vec![] } } else { srv.step().collect() };
             for e in evs {
                 let (addr, ev) = match e {
                     server::Event::Connect(a) => (a, Ev::Connect),
@@ -339,7 +344,7 @@ pub fn run_ew(cfg: &EwCfg, script: &[EwOp], env: &EwEnv, ch: &mut Chooser) -> Ew
             if !stepped { continue; }
             if let Some(c) = clients[i].as_mut() {
                 set_fuel(env.fuel);
-                let evs: Vec<client::Event> = c.step().collect();
+                let evs: Vec<client::Event> = if env.late_events { let it: Box<dyn Iterator<Item = client::Event>> = Box::new(c.step()); match held_c[i].replace(it) { Some(old) => old.collect(), None => vec![] } } else { c.step().collect() };
                 for e in evs {
                     let ev = match e {
                         client::Event::Connect => Ev::Connect,
